@@ -7,6 +7,7 @@ import (
 	"path/filepath"
 	"strconv"
 
+	"verifsim/fmtv2"
 	"verifsim/sim"
 	"verifsim/world"
 
@@ -103,12 +104,13 @@ func merge(c *Ctx, sub *sim.Sim, at string) {
 }
 
 type crashKey struct {
-	kind   cache.EntryKind
-	hash   string
-	vals   map[string][]byte // value id -> content of every upload ever started for this key
-	acked  map[string]bool   // value ids of acknowledged uploads
-	flying map[string]bool   // value ids of uploads in flight at the kill
-	flight bool              // an upload was in flight at the kill
+	kind    cache.EntryKind
+	hash    string
+	vals    map[string][]byte // value id -> content of every upload ever started for this key
+	acked   map[string]bool   // value ids of acknowledged uploads
+	flying  map[string]bool   // value ids of uploads in flight at the kill
+	fetched map[string]bool   // value ids of completed fetches through the backend (complete, but nobody was promised they stay)
+	flight  bool              // an upload was in flight at the kill
 }
 
 type victimOp struct {
@@ -147,7 +149,17 @@ func crashBody(c *Ctx, s *sim.Sim, at int, tag string) (victimSteps int) {
 			world.StepInvariants(s, n, "")
 		}
 	}
-	n = world.StartNode(s, "g0:", dir, cfg, nil)
+	// Optionally a backend (b0): uploads are written through, and some victim
+	// operations are reads of keys only the backend holds, so that the kill
+	// lands inside a backend fetch. The restarted instance has no backend:
+	// what is judged is what the directory holds.
+	var st *world.Store
+	var proxy cache.Proxy
+	if r.Chance(1, 3) {
+		st = world.NewStore(s, cfg.Storage == "zstd")
+		proxy = &world.DirectProxy{St: st}
+	}
+	n = world.StartNode(s, "g0:", dir, cfg, proxy)
 	s.Run()
 	if n.Err != nil || n.Cache == nil {
 		s.Violate("C08.starts", "g0:", "start-up failed on an empty directory: %v", n.Err)
@@ -158,7 +170,7 @@ func crashBody(c *Ctx, s *sim.Sim, at int, tag string) (victimSteps int) {
 	key := func(kind cache.EntryKind, hash string) *crashKey {
 		k := kind.String() + "/" + hash
 		if keys[k] == nil {
-			keys[k] = &crashKey{kind: kind, hash: hash, vals: map[string][]byte{}, acked: map[string]bool{}, flying: map[string]bool{}}
+			keys[k] = &crashKey{kind: kind, hash: hash, vals: map[string][]byte{}, acked: map[string]bool{}, flying: map[string]bool{}, fetched: map[string]bool{}}
 			order = append(order, keys[k])
 		}
 		return keys[k]
@@ -215,6 +227,20 @@ func crashBody(c *Ctx, s *sim.Sim, at int, tag string) (victimSteps int) {
 			}
 			k.vals[b.Hash] = b.Data
 			op := victimOp{key: k, val: b, cuts: world.DrawCuts(r, len(b.Data)), send: b.Data}
+			if st != nil && kind != cache.RAW && r.Chance(1, 2) {
+				// a read of a key that only the backend holds (unless another
+				// victim uploads it meanwhile): via 3 size known, via 4 unknown
+				obj := b.Data
+				if st.V2 && kind == cache.CAS {
+					obj = fmtv2.Encode(b.Data, fmtv2.WriteOpts{})
+				}
+				st.Objects[world.ObjectName(kind, k.hash, st.V2)] = obj
+				op.via = 3 + r.Intn(2)
+				op.descr = fmt.Sprintf("v%d: fetch %s %s = %s through the backend via %d", v, kind, short(k.hash), b.ID, op.via)
+				log("%s", op.descr)
+				victims[v] = append(victims[v], op)
+				continue
+			}
 			if kind == cache.CAS && r.Chance(1, 5) {
 				// an upload whose bytes do not match the digest: it must be rejected,
 				// and whatever it left on disk at a kill must never be served
@@ -281,6 +307,23 @@ func crashBody(c *Ctx, s *sim.Sim, at int, tag string) (victimSteps int) {
 					s.Fault("upload.flip")
 				}
 				switch {
+				case op.via >= 3:
+					sz := op.val.Size()
+					if op.via == 4 {
+						sz = -1
+					}
+					s.Fault("crash.victim-fetch")
+					res = cl.DiskGet(op.key.kind, op.key.hash, sz, 0, false, world.FullRead)
+					if res.OK && res.Found && op.key.kind == cache.CAS && !bytes.Equal(res.Data, op.val.Data) {
+						s.Violate("C12.faithful", "crash/victim-fetch", "fetch through the backend returned other bytes")
+					}
+					fetchedOK := res.OK && res.Found
+					res.OK = false // not an acknowledged upload
+					if fetchedOK {
+						ackMu <- struct{}{}
+						op.key.fetched[world.HashOf(res.Data)] = true
+						<-ackMu
+					}
 				case op.via == 0:
 					res = cl.DiskPut(op.key.kind, op.key.hash, op.val.Size(), rd)
 				case op.via == 1 && op.key.kind == cache.CAS:
@@ -492,7 +535,7 @@ func verifyKey(s *sim.Sim, cl *world.Client, k *crashKey, roomy bool, cfg world.
 	for _, x := range reads {
 		if x.res.Found && x.res.OK {
 			id := world.HashOf(x.res.Data)
-			if !k.acked[id] && !k.flying[id] {
+			if !k.acked[id] && !k.flying[id] && !k.fetched[id] {
 				what := "wrong-bytes"
 				for fid := range k.flying {
 					if v := k.vals[fid]; len(x.res.Data) < len(v) && bytes.HasPrefix(v, x.res.Data) {
